@@ -66,7 +66,19 @@ class Harness:
         self.cost = float(kv.get("cost", 20))
         self.timeout = int(kv["timeout"]) if "timeout" in kv else None
         self.kind = kv.get("kind", "functional")
+        # thorough tier: the same harness function is also run under these builds (other regions:
+        # `--cfg lrv_region` makes region index 0 the region of that build)
+        self.tbuilds = [b for b in kv.get("tbuilds", "").split(",") if b]
+        self.uid = self.id
         self.bounds, self.assumes, self.encodes, self.out = [], [], [], []
+
+    def instance(self, build):
+        import copy
+        h = copy.copy(self)
+        h.build, h.tier, h.tbuilds = build, "thorough", []
+        h.uid = "%s@%s" % (self.id, build)
+        h.cost = self.cost * 1.2
+        return h
 
     def fq(self):
         """fully qualified harness name for `cargo kani --exact --harness` (without --exact the
@@ -76,7 +88,7 @@ class Harness:
         return "::".join(parts + [self.modname, self.id])
 
     def brief(self):
-        return dict(id=self.id, file=os.path.relpath(self.file, VERIF), anchor=self.anchor,
+        return dict(id=self.uid, file=os.path.relpath(self.file, VERIF), anchor=self.anchor,
                     build=self.build, bounds=" ".join(self.bounds), assumes=self.assumes,
                     encodes=self.encodes, outside=self.out)
 
@@ -110,6 +122,15 @@ def lint_statics():
 
 
 def discover():
+    files, harnesses = _discover()
+    extra = []
+    for h in harnesses:
+        for b in h.tbuilds:
+            extra.append(h.instance(b))
+    return files, harnesses + extra
+
+
+def _discover():
     lint_statics()
     files, harnesses = [], []
     for path in sorted(glob.glob(os.path.join(HARNESS_DIR, "**", "*.rs"), recursive=True)):
